@@ -4,7 +4,18 @@ from tools.vlib import hx
 
 ID = "C15"
 LEVEL = "proof"
-DRIVER = {"srcs": ["harness/c15_driver.cc"], "sdk": False}
+DRIVER = {"srcs": ["harness/c15_driver.cc", "harness/c15_purity.cc"], "sdk": False}
+
+
+def build_driver():
+    """the ASan/UBSan case driver + the ThreadSanitizer purity probe (clang++), behind one dispatcher that behaves
+    like a single case driver: PURITY lines go to the probe, everything else to the case driver"""
+    from tools import vlib, purity
+    main = vlib.build_driver("c15_driver", ["harness/c15_driver.cc"], sdk=False)
+    probe = purity.build_probe("c15_purity", ["harness/c15_purity.cc"])
+    return purity.make_dispatcher("c15_dispatch", main, probe)
+
+
 TRIVIAL_TAGS = {"ops_empty", "hdr_nothing_valid", "hdr_too_long", "inj_empty_composite", "ext_empty_composite", "inj_nothing"}
 ASSUMPTIONS = [
     "round trip hypotheses (theorem baggage_roundtrip, checker rt_ok): keys non-empty printable, values printable, the part of a value "
@@ -19,6 +30,12 @@ ASSUMPTIONS = [
     "the composite clauses are checked on the implementation against the same parts applied one after the other by hand (fresh propagator "
     "objects); B3/Jaeger parts are modelled concretely in coq/C15/Model.v only so that the correspondence covers whole composites (their "
     "own properties belong to C16)",
+    "the model treats Baggage operations and the propagators as pure functions of immutable values; that is an ASSUMPTION about the C++, "
+    "not a theorem: it is probed at run time on every check by harness/c15_purity.cc (clang ThreadSanitizer build, 3-4 real threads released by "
+    "a barrier; GetValue/Set/Delete/ToHeader/GetAllEntries on one SHARED Baggage, FromHeader on a shared header string, BaggagePropagator and "
+    "CompositePropagator Inject of one shared Context into per-thread carriers and Extract from a shared carrier into the shared Context, on "
+    "FRESH shared objects with 0/1/8/64 entries incl. metadata and percent-encoded values every round; clauses purity:data_race, "
+    "purity:result_differs); a race the probe's schedules do not execute is not excluded",
     "isspace/isalnum/isdigit/toupper behave as modelled in the C locale (bytes >= 0x80 in no class)",
 ]
 TRUSTED = ["model coq/C15/Model.v (+ C14/Model.v tokenizer abstraction, C09/Model.v) is hand-written; tied by this correspondence run"]
@@ -298,9 +315,15 @@ def comp_ext(names, rng):
     return "COMP %s ; EXT %s ; %s" % (" ".join(names), ctx_spec(rng), " ".join("%s %s" % (hx(k), hx(v)) for k, v in car))
 
 
+def purity_cases(tier):
+    # PURITY <baggage entries> <threads> <rounds (fresh shared objects each)> <iterations of every operation per round>
+    k = 1 if tier == "quick" else 6
+    return ["PURITY 0 4 %d 4" % (300 * k), "PURITY 1 4 %d 4" % (300 * k), "PURITY 8 4 %d 3" % (200 * k), "PURITY 64 3 %d 2" % (60 * k)]
+
+
 def gen(rng, tier):
     n = 1 if tier == "quick" else 12
-    cases = []
+    cases = purity_cases(tier)
     # ---- Set/Delete sequences (small key alphabet: hits on existing keys are frequent)
     for _ in range(600 * n):
         cases.append(ops_case(rng, rng.choice([1, 2, 3, 5, 8, 12, 20, 30])))
@@ -409,7 +432,9 @@ LEVEL_TEXT = ("Theorems in coq/Properties_C15.v about the Gallina model of Bagga
               "for every byte string, the header round trip for every entry list under explicitly stated hypotheses, Set/Delete against the abstract "
               "ordered map for every store history, extraction = the declarative member grammar with the 180/4096/8192 limits for every byte string, "
               "composite = fold of the parts for every list of propagators; the model is tied to the C++ on every run by running the extracted model "
-              "and the rebuilt ASan/UBSan driver on the same generated cases and by running the extracted SPEC on the implementation's outputs.")
+              "and the rebuilt ASan/UBSan driver on the same generated cases and by running the extracted SPEC on the implementation's outputs; the model's purity assumption (operations are functions of "
+              "immutable values) is probed on every run by a ThreadSanitizer build in which several threads use shared Baggage/Context/propagator objects "
+              "(a run-time probe, not a theorem).")
 LEVEL_NOTE = ("Trusted: Coq kernel, extraction, ocaml/driver.ml, the C++ driver, the generator, tools/extract_consts.py; the model is hand-written "
               "(tied by correspondence, not verified against C++ semantics); the tokenizer abstraction (members/num_tokens) is C14's; memory safety is "
               "evidenced by sanitizers, not proved.")
